@@ -120,6 +120,16 @@ func Install(vm *goja.Runtime) {
 		t := call.Argument(0).(*goja.Object)
 		return vm.ToValue(vm.NewProxy(t, ForwardingTraps(vm)))
 	})
+	vm.Set("__goProxyHandler", func(call goja.FunctionCall) goja.Value {
+		// a Proxy created through the Go API whose ProxyTrapConfig delegates every trap to the JS handler object
+		t := call.Argument(0).(*goja.Object)
+		h := call.Argument(1).(*goja.Object)
+		px := vm.NewProxy(t, DelegatingTraps(vm, h))
+		r := vm.NewObject()
+		r.Set("proxy", vm.ToValue(px))
+		r.Set("revoke", func() { px.Revoke() })
+		return r
+	})
 	vm.Set("__regs", func(call goja.FunctionCall) goja.Value {
 		return vm.ToValue(goja.VerifRegs(vm))
 	})
@@ -228,4 +238,69 @@ func fromDesc(vm *goja.Runtime, d goja.PropertyDescriptor) goja.Value {
 		}
 	}
 	return o
+}
+
+// DelegatingTraps is a Go ProxyTrapConfig whose traps ask a JS handler object for the answer (typed results only).
+func DelegatingTraps(vm *goja.Runtime, h *goja.Object) *goja.ProxyTrapConfig {
+	call := func(name string, args ...goja.Value) goja.Value {
+		f, _ := goja.AssertFunction(h.Get(name))
+		v, err := f(h, args...)
+		if err != nil {
+			panic(err)
+		}
+		return v
+	}
+	key := func(p interface{}) goja.Value { return vm.ToValue(p) }
+	gopd := func(t *goja.Object, k goja.Value) goja.PropertyDescriptor {
+		return toDesc(vm, call("getOwnPropertyDescriptor", t, k))
+	}
+	objOrNil := func(v goja.Value) *goja.Object {
+		if v == nil || goja.IsNull(v) || goja.IsUndefined(v) {
+			return nil
+		}
+		return v.ToObject(vm)
+	}
+	return &goja.ProxyTrapConfig{
+		GetPrototypeOf: func(t *goja.Object) *goja.Object { return objOrNil(call("getPrototypeOf", t)) },
+		SetPrototypeOf: func(t *goja.Object, p *goja.Object) bool {
+			var pv goja.Value = goja.Null()
+			if p != nil {
+				pv = p
+			}
+			return call("setPrototypeOf", t, pv).ToBoolean()
+		},
+		IsExtensible:                func(t *goja.Object) bool { return call("isExtensible", t).ToBoolean() },
+		PreventExtensions:           func(t *goja.Object) bool { return call("preventExtensions", t).ToBoolean() },
+		GetOwnPropertyDescriptor:    func(t *goja.Object, p string) goja.PropertyDescriptor { return gopd(t, key(p)) },
+		GetOwnPropertyDescriptorIdx: func(t *goja.Object, p int) goja.PropertyDescriptor { return gopd(t, key(p)) },
+		GetOwnPropertyDescriptorSym: func(t *goja.Object, p *goja.Symbol) goja.PropertyDescriptor { return gopd(t, p) },
+		DefineProperty: func(t *goja.Object, k string, d goja.PropertyDescriptor) bool {
+			return call("defineProperty", t, key(k), fromDesc(vm, d)).ToBoolean()
+		},
+		DefinePropertyIdx: func(t *goja.Object, k int, d goja.PropertyDescriptor) bool {
+			return call("defineProperty", t, key(k), fromDesc(vm, d)).ToBoolean()
+		},
+		DefinePropertySym: func(t *goja.Object, k *goja.Symbol, d goja.PropertyDescriptor) bool {
+			return call("defineProperty", t, k, fromDesc(vm, d)).ToBoolean()
+		},
+		Has:    func(t *goja.Object, p string) bool { return call("has", t, key(p)).ToBoolean() },
+		HasIdx: func(t *goja.Object, p int) bool { return call("has", t, key(p)).ToBoolean() },
+		HasSym: func(t *goja.Object, p *goja.Symbol) bool { return call("has", t, p).ToBoolean() },
+		Get:    func(t *goja.Object, p string, r goja.Value) goja.Value { return call("get", t, key(p), r) },
+		GetIdx: func(t *goja.Object, p int, r goja.Value) goja.Value { return call("get", t, key(p), r) },
+		GetSym: func(t *goja.Object, p *goja.Symbol, r goja.Value) goja.Value { return call("get", t, p, r) },
+		Set: func(t *goja.Object, p string, v goja.Value, r goja.Value) bool {
+			return call("set", t, key(p), v, r).ToBoolean()
+		},
+		SetIdx: func(t *goja.Object, p int, v goja.Value, r goja.Value) bool {
+			return call("set", t, key(p), v, r).ToBoolean()
+		},
+		SetSym: func(t *goja.Object, p *goja.Symbol, v goja.Value, r goja.Value) bool {
+			return call("set", t, p, v, r).ToBoolean()
+		},
+		DeleteProperty:    func(t *goja.Object, p string) bool { return call("deleteProperty", t, key(p)).ToBoolean() },
+		DeletePropertyIdx: func(t *goja.Object, p int) bool { return call("deleteProperty", t, key(p)).ToBoolean() },
+		DeletePropertySym: func(t *goja.Object, p *goja.Symbol) bool { return call("deleteProperty", t, p).ToBoolean() },
+		OwnKeys:           func(t *goja.Object) *goja.Object { return call("ownKeys", t).ToObject(vm) },
+	}
 }
